@@ -14,7 +14,7 @@ Tie        : on the implementation, `Z' = T Z Tᵀ` and `rhs' = T rhs` with `T` 
 Search     : the property on the implementation: half-segment currents, feed impedances, far field
              and near field of the two descriptions with the condition-number rule.
 """
-import math, random
+import math, random, re
 import numpy as np
 import antgen, farlib
 
@@ -324,7 +324,7 @@ def run(ck):
                        'for that symmetry on every run (C06_table_symmetric)']
     seen = set()
     for v in viol:
-        k = v['observed'][:30]
+        k = re.sub(r'[0-9.e+-]+', '#', v['observed'])[:40]
         if k not in seen:
             seen.add(k); ck.violation(v)
     if (dis or ck.broken) and not viol:
